@@ -64,7 +64,7 @@ typedef void (*fill_def_levels_fn)(int16_t* def_levels, int64_t count, int16_t v
 static void scalar_prefix_sum_i32(int32_t* values, int64_t count, int32_t initial) {
     int32_t sum = initial;
     for (int64_t i = 0; i < count; i++) {
-        sum += values[i];
+        sum = (int32_t)((uint32_t)sum + (uint32_t)values[i]);  /* wraps; signed overflow is undefined */
         values[i] = sum;
     }
 }
@@ -72,7 +72,7 @@ static void scalar_prefix_sum_i32(int32_t* values, int64_t count, int32_t initia
 static void scalar_prefix_sum_i64(int64_t* values, int64_t count, int64_t initial) {
     int64_t sum = initial;
     for (int64_t i = 0; i < count; i++) {
-        sum += values[i];
+        sum = (int64_t)((uint64_t)sum + (uint64_t)values[i]);  /* wraps; signed overflow is undefined */
         values[i] = sum;
     }
 }
